@@ -98,4 +98,4 @@ static bool replay(const std::string &text) {
     if (!o.key.empty()) printf("[replay] key=%s %s\n", o.key.c_str(), o.msg.c_str());
     return o.key.empty();
 }
-int main(int argc, char **argv) { return vp::main_(argc, argv, {run, replay}); }
+VP_MAIN(run, replay)
